@@ -952,3 +952,446 @@ Print Assumptions sf64_div_model.
 Print Assumptions g64_std_model.
 Print Assumptions g64_pair_error.
 Print Assumptions g64_remote_potential_error.
+
+(* ================================================================================================================ *)
+(* Part 5: the ACTUAL binary64 computation of `pair` (Flocq binary_float operations = the SpecFloat instance sf_ops of
+   Num/P2PSF.v, see sf_pair_bridge) under magnitude conditions on the inputs *)
+From Coq Require Import Floats.SpecFloat.
+From Tbfmm Require Import Num.P2PSF.
+
+(* ---- sqrt bridge (structure of Flocq.IEEE754.PrimFloat.sqrt_equiv, no primitive floats) ---- *)
+Section SqrtBridge.
+Variable prec emax : Z.
+Context (prec_gt_0_ : Prec_gt_0 prec).
+Context (prec_lt_emax_ : Prec_lt_emax prec emax).
+
+Lemma sf_sqrt_bridge_gen : forall x : binary_float prec emax,
+  B2SF (Bsqrt mode_NE x) = SFsqrt prec emax (B2SF x).
+Proof.
+intros x. symmetry.
+case x as [sx|sx| |sx mx ex Bx]; [now (trivial || case sx).. | ].
+case sx; [reflexivity | ].
+simpl.
+rewrite B2SF_SF2B.
+set (melz := SFsqrt_core_binary _ _ _ _).
+case melz as [[mz ez] lz].
+apply binary_round_aux_equiv.
+Qed.
+End SqrtBridge.
+
+Lemma sf_sqrt_bridge : forall x : b64, B2SF (Bsqrt mode_NE x) = SFsqrt 53 1024 (B2SF x).
+Proof. apply sf_sqrt_bridge_gen. Qed.
+
+(* ---- the binary64 instance of the abstract arithmetic ---- *)
+Definition b64_one : b64 := @B754_finite 53 1024 false 4503599627370496 (-52) eq_refl.
+
+Definition b64_ops : ops b64 :=
+  {| o_add := Bplus mode_NE; o_sub := Bminus mode_NE; o_mul := Bmult mode_NE; o_div := Bdiv mode_NE;
+     o_sqrt := Bsqrt mode_NE; o_zero := B754_zero false; o_one := b64_one |}.
+
+Definition sf_part (p : part b64) : part spec_float :=
+  {| p_x := B2SF (p_x _ p); p_y := B2SF (p_y _ p); p_z := B2SF (p_z _ p); p_v := B2SF (p_v _ p) |}.
+Definition partR_of (p : part b64) : partR :=
+  {| p_x := B2R (p_x _ p); p_y := B2R (p_y _ p); p_z := B2R (p_z _ p); p_v := B2R (p_v _ p) |}.
+
+(* the SpecFloat computation that is run against the C++ IS the Flocq computation, for all inputs *)
+Theorem sf_pair_bridge : forall s t : part b64,
+  pair spec_float (sf_ops 53 1024) (sf_part s) (sf_part t) =
+  let '(fx, fy, fz, inv) := pair b64 b64_ops s t in (B2SF fx, B2SF fy, B2SF fz, B2SF inv).
+Proof.
+  intros s t. unfold pair, sf_part.
+  cbn [sf_ops b64_ops o_add o_sub o_mul o_div o_sqrt o_one p_x p_y p_z p_v].
+  change (S754_finite false (Z.to_pos (2 ^ mw 53)) (- mw 53)) with (B2SF b64_one).
+  rewrite <- !sf_minus_bridge, <- !sf_mult_bridge, <- !sf_plus_bridge, <- sf_div_bridge, <- sf_sqrt_bridge.
+  rewrite <- !sf_mult_bridge. reflexivity.
+Qed.
+
+(* ---- zero or normal exact results ---- *)
+Definition nz (r : R) : Prop := r = 0 \/ bpow radix2 (-1022) <= Rabs r < bpow radix2 1023.
+
+Lemma grnd_0 : grnd 0 = 0.
+Proof.
+  unfold grnd. destruct (Rle_dec _ _) as [H|H]; [|reflexivity].
+  rewrite Rabs_R0 in H. pose proof (bpow_gt_0 radix2 (-1022)). lra.
+Qed.
+
+Lemma grnd_nz : forall r, nz r -> grnd r = rnd64 r /\ Rabs (rnd64 r) < bpow radix2 1024.
+Proof.
+  intros r [Z|H].
+  - subst r. rewrite grnd_0, round_0 by auto with typeclass_instances.
+    rewrite Rabs_R0. split; [reflexivity | apply bpow_gt_0].
+  - split; [apply grnd_normal, H | apply (rnd64_model r H)].
+Qed.
+
+Lemma grnd_eq0 : forall r, grnd r = 0 -> r = 0.
+Proof.
+  intros r H. destruct (grnd_model r) as [e [He Hr]]. rewrite Hr in H.
+  pose proof u64_range as Hu. apply Rabs_le_both in He.
+  destruct (Rmult_integral _ _ H) as [Z|Z]; [exact Z | lra].
+Qed.
+
+Lemma grnd_nonneg : forall r, 0 <= r -> 0 <= grnd r.
+Proof.
+  intros r H. destruct (grnd_model r) as [e [He ->]].
+  pose proof u64_range as Hu. apply Rabs_le_both in He. apply Rmult_le_pos; lra.
+Qed.
+
+Lemma sqrt_b64_nz : forall x : b64, nz (sqrt (B2R x)).
+Proof.
+  intros x. destruct (Rle_or_lt (B2R x) 0) as [Hn|Hp].
+  - left. destruct Hn as [Hn|Hn]; [apply sqrt_neg_0; lra | rewrite Hn; apply sqrt_0].
+  - right.
+    assert (Hfs : is_finite_strict x = true).
+    { destruct x as [s|s| |s m e Hb]; cbn [B2R] in Hp; try lra. reflexivity. }
+    pose proof (abs_B2R_ge_emin 53 1024 x Hfs) as Hlo.
+    pose proof (abs_B2R_lt_emax 53 1024 x) as Hhi.
+    rewrite Rabs_pos_eq in Hlo, Hhi by lra.
+    change (SpecFloat.emin 53 1024) with (2 * -537)%Z in Hlo.
+    change 1024%Z with (2 * 512)%Z in Hhi.
+    rewrite Rabs_pos_eq by apply sqrt_ge_0.
+    split.
+    + apply Rle_trans with (bpow radix2 (-537)); [apply bpow_le; lia|].
+      rewrite <- (sqrt_bpow radix2 (-537)). apply sqrt_le_1_alt; exact Hlo.
+    + apply Rlt_le_trans with (bpow radix2 512); [|apply bpow_le; lia].
+      rewrite <- (sqrt_bpow radix2 512). apply sqrt_lt_1_alt; split; [lra | exact Hhi].
+Qed.
+
+(* ---- transfer: X is finite and its real value is r ---- *)
+Definition tr (X : b64) (r : R) : Prop := is_finite X = true /\ B2R X = r.
+
+Lemma tr_add : forall X Y a b, tr X a -> tr Y b -> nz (a + b) -> tr (Bplus mode_NE X Y) (o_add g64_ops a b).
+Proof.
+  intros X Y a b [Fx <-] [Fy <-] Hnz. cbn [g64_ops o_add]. destruct (grnd_nz _ Hnz) as [-> Hov].
+  generalize (Bplus_correct 53 1024 _ _ mode_NE X Y Fx Fy).
+  change (round radix2 (SpecFloat.fexp 53 1024) (round_mode mode_NE)) with rnd64.
+  rewrite Rlt_bool_true by exact Hov. intros (H1 & H2 & _). split; assumption.
+Qed.
+
+Lemma tr_sub : forall X Y a b, tr X a -> tr Y b -> nz (a - b) -> tr (Bminus mode_NE X Y) (o_sub g64_ops a b).
+Proof.
+  intros X Y a b [Fx <-] [Fy <-] Hnz. cbn [g64_ops o_sub]. destruct (grnd_nz _ Hnz) as [-> Hov].
+  generalize (Bminus_correct 53 1024 _ _ mode_NE X Y Fx Fy).
+  change (round radix2 (SpecFloat.fexp 53 1024) (round_mode mode_NE)) with rnd64.
+  rewrite Rlt_bool_true by exact Hov. intros (H1 & H2 & _). split; assumption.
+Qed.
+
+Lemma tr_mul : forall X Y a b, tr X a -> tr Y b -> nz (a * b) -> tr (Bmult mode_NE X Y) (o_mul g64_ops a b).
+Proof.
+  intros X Y a b [Fx <-] [Fy <-] Hnz. cbn [g64_ops o_mul]. destruct (grnd_nz _ Hnz) as [-> Hov].
+  generalize (Bmult_correct 53 1024 _ _ mode_NE X Y).
+  change (round radix2 (SpecFloat.fexp 53 1024) (round_mode mode_NE)) with rnd64.
+  rewrite Rlt_bool_true by exact Hov. intros (H1 & H2 & _).
+  split; [rewrite H2, Fx, Fy; reflexivity | exact H1].
+Qed.
+
+Lemma tr_div : forall X Y a b, tr X a -> tr Y b -> b <> 0 -> nz (a / b) -> tr (Bdiv mode_NE X Y) (o_div g64_ops a b).
+Proof.
+  intros X Y a b [Fx <-] [Fy <-] Hb Hnz. cbn [g64_ops o_div]. destruct (grnd_nz _ Hnz) as [-> Hov].
+  generalize (Bdiv_correct 53 1024 _ _ mode_NE X Y Hb).
+  change (round radix2 (SpecFloat.fexp 53 1024) (round_mode mode_NE)) with rnd64.
+  rewrite Rlt_bool_true by exact Hov. intros (H1 & H2 & _).
+  split; [rewrite H2; exact Fx | exact H1].
+Qed.
+
+Lemma tr_sqrt : forall X a, tr X a -> 0 <= a -> tr (Bsqrt mode_NE X) (o_sqrt g64_ops a).
+Proof.
+  intros X a [Fx <-] Ha. cbn [g64_ops o_sqrt]. destruct (grnd_nz _ (sqrt_b64_nz X)) as [-> _].
+  destruct (Bsqrt_correct 53 1024 _ _ mode_NE X) as (H1 & H2 & _).
+  change (round radix2 (SpecFloat.fexp 53 1024) (round_mode mode_NE)) with rnd64 in H1.
+  split; [|exact H1]. rewrite H2.
+  destruct X as [s|s| |s m e Hb]; try discriminate Fx; [reflexivity|].
+  destruct s; [|reflexivity]. exfalso. cbn [B2R] in Ha. revert Ha. apply Rlt_not_le.
+  apply F2R_lt_0. simpl. lia.
+Qed.
+
+Lemma tr_one : tr b64_one (o_one g64_ops).
+Proof.
+  split; [reflexivity|]. cbn [g64_ops o_one]. unfold b64_one, B2R, F2R; cbn [Fnum Fexp cond_Zopp].
+  change (IZR (Z.pos 4503599627370496)) with (bpow radix2 52).
+  rewrite <- bpow_plus. reflexivity.
+Qed.
+
+(* ---- magnitude calculus on the real side ---- *)
+Definition zr (lo hi : Z) (r : R) : Prop := r = 0 \/ bpow radix2 lo <= Rabs r <= bpow radix2 hi.
+Definition nzr (lo hi : Z) (r : R) : Prop := 0 <= r /\ zr lo hi r.
+Definition pr (lo hi : Z) (r : R) : Prop := bpow radix2 lo <= r <= bpow radix2 hi.
+
+Lemma zr_nz : forall lo hi r, zr lo hi r -> (-1022 <= lo)%Z -> (hi < 1023)%Z -> nz r.
+Proof.
+  intros lo hi r [Z|[H1 H2]] Hlo Hhi; [left; exact Z | right].
+  pose proof (bpow_le radix2 _ _ Hlo). pose proof (bpow_lt radix2 _ _ Hhi). lra.
+Qed.
+
+Lemma zr_weaken : forall lo hi lo' hi' r, zr lo hi r -> (lo' <= lo)%Z -> (hi <= hi')%Z -> zr lo' hi' r.
+Proof.
+  intros lo hi lo' hi' r [Z|[H1 H2]] Hlo Hhi; [left; exact Z | right].
+  pose proof (bpow_le radix2 _ _ Hlo). pose proof (bpow_le radix2 _ _ Hhi). lra.
+Qed.
+
+Lemma zr_grnd : forall lo hi r, zr lo hi r -> (-1022 <= lo)%Z -> (hi < 1023)%Z -> zr lo hi (grnd r).
+Proof.
+  intros lo hi r H Hlo Hhi. pose proof (zr_nz _ _ _ H Hlo Hhi) as Hnz.
+  destruct H as [Z|[H1 H2]]; [left; rewrite Z; apply grnd_0 | right].
+  assert (Hlh : (lo <= hi)%Z) by (apply (le_bpow radix2); lra).
+  destruct (grnd_nz r Hnz) as [-> _]. split.
+  - apply abs_round_ge_generic; auto with typeclass_instances. apply F64_bpow; lia.
+  - apply abs_round_le_generic; auto with typeclass_instances. apply F64_bpow; lia.
+Qed.
+
+Lemma zr_mul : forall l1 h1 l2 h2 a b, zr l1 h1 a -> zr l2 h2 b -> zr (l1 + l2) (h1 + h2) (a * b).
+Proof.
+  intros l1 h1 l2 h2 a b [Z|[A1 A2]] [Z'|[B1 B2]]; try (left; subst; ring).
+  right. rewrite Rabs_mult, !bpow_plus.
+  pose proof (bpow_ge_0 radix2 l1). pose proof (bpow_ge_0 radix2 l2).
+  split; apply Rmult_le_compat; lra.
+Qed.
+
+Lemma nzr_sq : forall lo hi a, zr lo hi a -> nzr (lo + lo) (hi + hi) (a * a).
+Proof. intros lo hi a H; split; [nra | apply zr_mul; assumption]. Qed.
+
+Lemma nzr_grnd : forall lo hi r, nzr lo hi r -> (-1022 <= lo)%Z -> (hi < 1023)%Z -> nzr lo hi (grnd r).
+Proof. intros lo hi r [H0 H] Hlo Hhi; split; [apply grnd_nonneg, H0 | apply zr_grnd; assumption]. Qed.
+
+Lemma nzr_nz : forall lo hi r, nzr lo hi r -> (-1022 <= lo)%Z -> (hi < 1023)%Z -> nz r.
+Proof. intros lo hi r [_ H]; apply zr_nz, H. Qed.
+
+Lemma nzr_weaken : forall lo hi hi' r, nzr lo hi r -> (hi <= hi')%Z -> nzr lo hi' r.
+Proof. intros lo hi hi' r [H0 H] Hh; split; [exact H0 | apply (zr_weaken lo hi); [exact H | lia | exact Hh]]. Qed.
+
+Lemma nzr_add : forall lo hi a b, nzr lo hi a -> nzr lo hi b -> nzr lo (hi + 1) (a + b).
+Proof.
+  intros lo hi a b [A0 A] [B0 B]; split; [lra|].
+  assert (H2 : bpow radix2 (hi + 1) = 2 * bpow radix2 hi).
+  { rewrite bpow_plus. change (bpow radix2 1) with 2. ring. }
+  pose proof (bpow_ge_0 radix2 hi) as Hh.
+  unfold zr in *. rewrite H2. rewrite Rabs_pos_eq in * by lra.
+  destruct A as [A|[A1 A2]], B as [B|[B1 B2]].
+  - left; lra.
+  - right; lra.
+  - right; lra.
+  - right; lra.
+Qed.
+
+Lemma nzr_pr : forall lo hi r, nzr lo hi r -> r <> 0 -> pr lo hi r.
+Proof.
+  intros lo hi r [H0 [Z|H]] Hn; [contradiction|]. rewrite Rabs_pos_eq in H by exact H0. exact H.
+Qed.
+
+Lemma pr_pos : forall lo hi r, pr lo hi r -> 0 < r.
+Proof. intros lo hi r [H _]. pose proof (bpow_gt_0 radix2 lo). lra. Qed.
+
+Lemma pr_zr : forall lo hi r, pr lo hi r -> zr lo hi r.
+Proof. intros lo hi r H. pose proof (pr_pos _ _ _ H). right. rewrite Rabs_pos_eq by lra. exact H. Qed.
+
+Lemma pr_nz : forall lo hi r, pr lo hi r -> (-1022 <= lo)%Z -> (hi < 1023)%Z -> nz r.
+Proof. intros lo hi r H; apply zr_nz, pr_zr, H. Qed.
+
+Lemma pr_grnd : forall lo hi r, pr lo hi r -> (-1022 <= lo)%Z -> (hi < 1023)%Z -> pr lo hi (grnd r).
+Proof.
+  intros lo hi r H Hlo Hhi. destruct (grnd_nz r (pr_nz _ _ _ H Hlo Hhi)) as [-> _].
+  destruct H as [H1 H2].
+  assert (Hlh : (lo <= hi)%Z) by (apply (le_bpow radix2); lra).
+  split.
+  - apply round_ge_generic; auto with typeclass_instances. apply F64_bpow; lia.
+  - apply round_le_generic; auto with typeclass_instances. apply F64_bpow; lia.
+Qed.
+
+Lemma pr_inv : forall lo hi r, pr lo hi r -> pr (- hi) (- lo) (1 / r).
+Proof.
+  intros lo hi r H. pose proof (pr_pos _ _ _ H) as Hp. destruct H as [H1 H2].
+  unfold pr, Rdiv. rewrite Rmult_1_l, !bpow_opp. pose proof (bpow_gt_0 radix2 lo).
+  split; apply Rinv_le_contravar; lra.
+Qed.
+
+Lemma pr_sqrt : forall lo hi r, pr (2 * lo) (2 * hi) r -> pr lo hi (sqrt r).
+Proof.
+  intros lo hi r [H1 H2]. unfold pr.
+  rewrite <- (sqrt_bpow radix2 lo), <- (sqrt_bpow radix2 hi). split; apply sqrt_le_1_alt; assumption.
+Qed.
+
+Lemma pr_mul : forall l1 h1 l2 h2 a b, pr l1 h1 a -> pr l2 h2 b -> pr (l1 + l2) (h1 + h2) (a * b).
+Proof.
+  intros l1 h1 l2 h2 a b [A1 A2] [B1 B2]. unfold pr. rewrite !bpow_plus.
+  pose proof (bpow_ge_0 radix2 l1). pose proof (bpow_ge_0 radix2 l2).
+  split; apply Rmult_le_compat; lra.
+Qed.
+
+(* the operations of g64_ops on magnitudes *)
+Lemma g_sub_zr : forall lo hi a b, zr lo hi (a - b) -> (-1022 <= lo)%Z -> (hi < 1023)%Z ->
+  zr lo hi (o_sub g64_ops a b).
+Proof. intros; cbn [g64_ops o_sub]; apply zr_grnd; assumption. Qed.
+
+Lemma g_mul_zr : forall l1 h1 l2 h2 a b, zr l1 h1 a -> zr l2 h2 b -> (-1022 <= l1 + l2)%Z -> (h1 + h2 < 1023)%Z ->
+  zr (l1 + l2) (h1 + h2) (o_mul g64_ops a b).
+Proof. intros; cbn [g64_ops o_mul]; apply zr_grnd; [apply zr_mul|..]; assumption. Qed.
+
+Lemma g_sq_nzr : forall lo hi a, zr lo hi a -> (-1022 <= lo + lo)%Z -> (hi + hi < 1023)%Z ->
+  nzr (lo + lo) (hi + hi) (o_mul g64_ops a a).
+Proof. intros; cbn [g64_ops o_mul]; apply nzr_grnd; [apply nzr_sq|..]; assumption. Qed.
+
+Lemma g_add_nzr : forall lo hi a b, nzr lo hi a -> nzr lo hi b -> (-1022 <= lo)%Z -> (hi + 1 < 1023)%Z ->
+  nzr lo (hi + 1) (o_add g64_ops a b).
+Proof. intros; cbn [g64_ops o_add]; apply nzr_grnd; [apply nzr_add|..]; assumption. Qed.
+
+Lemma g_inv_pr : forall lo hi r, pr lo hi r -> (-1022 <= - hi)%Z -> (- lo < 1023)%Z ->
+  pr (- hi) (- lo) (o_div g64_ops (o_one g64_ops) r).
+Proof. intros; cbn [g64_ops o_div o_one]; apply pr_grnd; [apply pr_inv|..]; assumption. Qed.
+
+Lemma g_sqrt_pr : forall lo hi r, pr (2 * lo) (2 * hi) r -> (-1022 <= lo)%Z -> (hi < 1023)%Z ->
+  pr lo hi (o_sqrt g64_ops r).
+Proof. intros; cbn [g64_ops o_sqrt]; apply pr_grnd; [apply pr_sqrt|..]; assumption. Qed.
+
+Lemma g_mul_pr : forall l1 h1 l2 h2 a b, pr l1 h1 a -> pr l2 h2 b -> (-1022 <= l1 + l2)%Z -> (h1 + h2 < 1023)%Z ->
+  pr (l1 + l2) (h1 + h2) (o_mul g64_ops a b).
+Proof. intros; cbn [g64_ops o_mul]; apply pr_grnd; [apply pr_mul|..]; assumption. Qed.
+
+Lemma g_add_eq0 : forall a b, o_add g64_ops a b = 0 -> a + b = 0.
+Proof. intros a b; apply grnd_eq0. Qed.
+Lemma g_sub_eq0 : forall a b, o_sub g64_ops a b = 0 -> a - b = 0.
+Proof. intros a b; apply grnd_eq0. Qed.
+Lemma g_sq_eq0 : forall a, o_mul g64_ops a a = 0 -> a = 0.
+Proof. intros a H; apply grnd_eq0 in H. destruct (Rmult_integral _ _ H); assumption. Qed.
+
+(* ---- input conditions: finite inputs; each coordinate difference is 0 or has magnitude in [2^-160, 2^160];
+        distinct positions; each charge is 0 or has magnitude in [2^-160, 2^160] ---- *)
+Definition b64_inputs_ok (s t : part b64) : Prop :=
+  (is_finite (p_x _ s) = true /\ is_finite (p_y _ s) = true /\ is_finite (p_z _ s) = true /\
+   is_finite (p_v _ s) = true) /\
+  (is_finite (p_x _ t) = true /\ is_finite (p_y _ t) = true /\ is_finite (p_z _ t) = true /\
+   is_finite (p_v _ t) = true) /\
+  (zr (-160) 160 (B2R (p_x _ s) - B2R (p_x _ t)) /\ zr (-160) 160 (B2R (p_y _ s) - B2R (p_y _ t)) /\
+   zr (-160) 160 (B2R (p_z _ s) - B2R (p_z _ t))) /\
+  apart (partR_of s) (partR_of t) /\
+  zr (-160) 160 (B2R (p_v _ s)) /\ zr (-160) 160 (B2R (p_v _ t)).
+
+Lemma tr_in : forall X : b64, is_finite X = true -> tr X (B2R X).
+Proof. intros X H; split; [exact H | reflexivity]. Qed.
+
+(* the IEEE computation, read through B2R, is the computation in g64_ops on the B2R images, and stays finite *)
+Theorem b64_pair_g64 : forall s t : part b64, b64_inputs_ok s t ->
+  let '(fx, fy, fz, inv) := pair b64 b64_ops s t in
+  let '(gx, gy, gz, ginv) := pair R g64_ops (partR_of s) (partR_of t) in
+  tr fx gx /\ tr fy gy /\ tr fz gz /\ tr inv ginv.
+Proof.
+  intros [xs ys zs vs] [xt yt zt vt] Hok. unfold b64_inputs_ok, partR_of in Hok. cbn [p_x p_y p_z p_v] in Hok.
+  destruct Hok as ((Fxs & Fys & Fzs & Fvs) & (Fxt & Fyt & Fzt & Fvt) & (HX & HY & HZ) & Hap & Hvs & Hvt).
+  unfold apart, d2 in Hap. cbn [p_x p_y p_z] in Hap.
+  unfold pair, partR_of. cbn [p_x p_y p_z p_v].
+  cbn [b64_ops o_add o_sub o_mul o_div o_sqrt o_one].
+  (* differences *)
+  set (dx := o_sub g64_ops (B2R xs) (B2R xt)). set (DX := Bminus mode_NE xs xt).
+  set (dy := o_sub g64_ops (B2R ys) (B2R yt)). set (DY := Bminus mode_NE ys yt).
+  set (dz := o_sub g64_ops (B2R zs) (B2R zt)). set (DZ := Bminus mode_NE zs zt).
+  assert (Tdx : tr DX dx) by (apply tr_sub; [apply tr_in; assumption .. | apply (zr_nz _ _ _ HX); lia]).
+  assert (Tdy : tr DY dy) by (apply tr_sub; [apply tr_in; assumption .. | apply (zr_nz _ _ _ HY); lia]).
+  assert (Tdz : tr DZ dz) by (apply tr_sub; [apply tr_in; assumption .. | apply (zr_nz _ _ _ HZ); lia]).
+  assert (Zdx : zr (-160) 160 dx) by (apply g_sub_zr; [exact HX | lia | lia]).
+  assert (Zdy : zr (-160) 160 dy) by (apply g_sub_zr; [exact HY | lia | lia]).
+  assert (Zdz : zr (-160) 160 dz) by (apply g_sub_zr; [exact HZ | lia | lia]).
+  (* squares *)
+  set (sxx := o_mul g64_ops dx dx). set (SXX := Bmult mode_NE DX DX).
+  set (syy := o_mul g64_ops dy dy). set (SYY := Bmult mode_NE DY DY).
+  set (szz := o_mul g64_ops dz dz). set (SZZ := Bmult mode_NE DZ DZ).
+  assert (Txx : tr SXX sxx)
+    by (apply tr_mul; [assumption .. | apply (zr_nz (-320) 320); [apply (zr_mul (-160) 160 (-160) 160); assumption | lia | lia]]).
+  assert (Tyy : tr SYY syy)
+    by (apply tr_mul; [assumption .. | apply (zr_nz (-320) 320); [apply (zr_mul (-160) 160 (-160) 160); assumption | lia | lia]]).
+  assert (Tzz : tr SZZ szz)
+    by (apply tr_mul; [assumption .. | apply (zr_nz (-320) 320); [apply (zr_mul (-160) 160 (-160) 160); assumption | lia | lia]]).
+  assert (Nxx : nzr (-320) 320 sxx) by (apply (g_sq_nzr (-160) 160); [assumption | lia | lia]).
+  assert (Nyy : nzr (-320) 320 syy) by (apply (g_sq_nzr (-160) 160); [assumption | lia | lia]).
+  assert (Nzz : nzr (-320) 320 szz) by (apply (g_sq_nzr (-160) 160); [assumption | lia | lia]).
+  (* sums *)
+  set (s1 := o_add g64_ops sxx syy). set (S1 := Bplus mode_NE SXX SYY).
+  assert (T1 : tr S1 s1)
+    by (apply tr_add; [assumption .. | apply (nzr_nz (-320) 321); [apply (nzr_add (-320) 320); assumption | lia | lia]]).
+  assert (N1 : nzr (-320) 321 s1) by (apply (g_add_nzr (-320) 320); [assumption | assumption | lia | lia]).
+  set (s2 := o_add g64_ops s1 szz). set (S2 := Bplus mode_NE S1 SZZ).
+  assert (Nzz' : nzr (-320) 321 szz) by (apply (nzr_weaken (-320) 320); [assumption | lia]).
+  assert (T2 : tr S2 s2)
+    by (apply tr_add; [assumption .. | apply (nzr_nz (-320) 322); [apply (nzr_add (-320) 321); assumption | lia | lia]]).
+  assert (N2 : nzr (-320) 322 s2) by (apply (g_add_nzr (-320) 321); [assumption | assumption | lia | lia]).
+  assert (Hs2 : s2 <> 0).
+  { intro E0. unfold s2 in E0. apply g_add_eq0 in E0.
+    destruct N1 as [P1 _]. destruct Nzz as [P3 _].
+    assert (E1 : s1 = 0) by lra. assert (E3 : szz = 0) by lra.
+    unfold s1 in E1. apply g_add_eq0 in E1.
+    destruct Nxx as [Pxx _]. destruct Nyy as [Pyy _].
+    assert (Exx : sxx = 0) by lra. assert (Eyy : syy = 0) by lra.
+    unfold sxx in Exx. apply g_sq_eq0 in Exx. unfold dx in Exx. apply g_sub_eq0 in Exx.
+    unfold syy in Eyy. apply g_sq_eq0 in Eyy. unfold dy in Eyy. apply g_sub_eq0 in Eyy.
+    unfold szz in E3. apply g_sq_eq0 in E3. unfold dz in E3. apply g_sub_eq0 in E3.
+    rewrite Exx, Eyy, E3 in Hap. simpl in Hap. lra. }
+  assert (P2 : pr (-320) 322 s2) by (apply nzr_pr; assumption).
+  (* inverse square distance, inverse distance *)
+  set (isd0 := o_div g64_ops (o_one g64_ops) s2). set (ISD0 := Bdiv mode_NE b64_one S2).
+  assert (T0 : tr ISD0 isd0).
+  { apply tr_div; [apply tr_one | exact T2 | exact Hs2 |].
+    apply (pr_nz (-322) 320); [apply (pr_inv (-320) 322 s2 P2) | lia | lia]. }
+  assert (P0 : pr (-322) 320 isd0) by (apply (g_inv_pr (-320) 322); [exact P2 | lia | lia]).
+  set (inv := o_sqrt g64_ops isd0). set (INV := Bsqrt mode_NE ISD0).
+  assert (Ti : tr INV inv) by (apply tr_sqrt; [exact T0 | left; apply (pr_pos _ _ _ P0)]).
+  assert (Pi : pr (-161) 160 inv) by (apply (g_sqrt_pr (-161) 160); [exact P0 | lia | lia]).
+  set (isd1 := o_mul g64_ops isd0 inv). set (ISD1 := Bmult mode_NE ISD0 INV).
+  assert (TI1 : tr ISD1 isd1).
+  { apply tr_mul; [assumption .. |].
+    apply (pr_nz (-483) 480); [apply (pr_mul (-322) 320 (-161) 160); assumption | lia | lia]. }
+  assert (PI1 : pr (-483) 480 isd1) by (apply (g_mul_pr (-322) 320 (-161) 160); [assumption | assumption | lia | lia]).
+  (* charges *)
+  set (vv := o_mul g64_ops (B2R vt) (B2R vs)). set (VV := Bmult mode_NE vt vs).
+  assert (Tv : tr VV vv).
+  { apply tr_mul; [apply tr_in; assumption .. |].
+    apply (zr_nz (-320) 320); [apply (zr_mul (-160) 160 (-160) 160); assumption | lia | lia]. }
+  assert (Zv : zr (-320) 320 vv) by (apply (g_mul_zr (-160) 160 (-160) 160); [assumption | assumption | lia | lia]).
+  set (isd2 := o_mul g64_ops isd1 vv). set (ISD2 := Bmult mode_NE ISD1 VV).
+  assert (ZI1 : zr (-483) 480 isd1) by (apply pr_zr; exact PI1).
+  assert (TI2 : tr ISD2 isd2).
+  { apply tr_mul; [assumption .. |].
+    apply (zr_nz (-803) 800); [apply (zr_mul (-483) 480 (-320) 320); assumption | lia | lia]. }
+  assert (ZI2 : zr (-803) 800 isd2) by (apply (g_mul_zr (-483) 480 (-320) 320); [assumption | assumption | lia | lia]).
+  (* outputs *)
+  split; [|split; [|split]]; [| | | exact Ti].
+  all: apply tr_mul; [assumption .. |];
+       apply (zr_nz (-963) 960); [apply (zr_mul (-160) 160 (-803) 800); assumption | lia | lia].
+Qed.
+
+(* MAIN A for the actual IEEE binary64 computation (Flocq operations) *)
+Theorem b64_pair_error : forall s t : part b64, b64_inputs_ok s t ->
+  let sR := partR_of s in let tR := partR_of t in
+  let '(fx, fy, fz, inv) := pair b64 b64_ops s t in
+  (is_finite fx = true /\ is_finite fy = true /\ is_finite fz = true /\ is_finite inv = true) /\
+  Rabs (B2R inv - / rdist sR tR) <= 5 * bpow radix2 (-53) * / rdist sR tR /\
+  Rabs (B2R fx - f_x _ (contrib sR tR)) <= 16 * bpow radix2 (-53) * Rabs (f_x _ (contrib sR tR)) /\
+  Rabs (B2R fy - f_y _ (contrib sR tR)) <= 16 * bpow radix2 (-53) * Rabs (f_y _ (contrib sR tR)) /\
+  Rabs (B2R fz - f_z _ (contrib sR tR)) <= 16 * bpow radix2 (-53) * Rabs (f_z _ (contrib sR tR)).
+Proof.
+  intros s t Hok sR tR.
+  pose proof (b64_pair_g64 s t Hok) as HT.
+  assert (Hap : apart sR tR) by (destruct Hok as (_ & _ & _ & Hap & _); exact Hap).
+  pose proof (g64_pair_error sR tR Hap) as HE. fold sR tR in HT.
+  destruct (pair b64 b64_ops s t) as [[[fx fy] fz] inv].
+  destruct (pair R g64_ops sR tR) as [[[gx gy] gz] ginv].
+  destruct HT as ((Fx & Ex) & (Fy & Ey) & (Fz & Ez) & (Fi & Ei)).
+  rewrite Ex, Ey, Ez, Ei. split; [repeat split; assumption | exact HE].
+Qed.
+
+(* the same for the SpecFloat instance sf_ops 53 1024 that is executed bit for bit against the C++ *)
+Theorem sf_pair_error : forall s t : part b64, b64_inputs_ok s t ->
+  let sR := partR_of s in let tR := partR_of t in
+  let '(fx, fy, fz, inv) := pair spec_float (sf_ops 53 1024) (sf_part s) (sf_part t) in
+  Rabs (SF2R radix2 inv - / rdist sR tR) <= 5 * bpow radix2 (-53) * / rdist sR tR /\
+  Rabs (SF2R radix2 fx - f_x _ (contrib sR tR)) <= 16 * bpow radix2 (-53) * Rabs (f_x _ (contrib sR tR)) /\
+  Rabs (SF2R radix2 fy - f_y _ (contrib sR tR)) <= 16 * bpow radix2 (-53) * Rabs (f_y _ (contrib sR tR)) /\
+  Rabs (SF2R radix2 fz - f_z _ (contrib sR tR)) <= 16 * bpow radix2 (-53) * Rabs (f_z _ (contrib sR tR)).
+Proof.
+  intros s t Hok sR tR. rewrite sf_pair_bridge.
+  pose proof (b64_pair_error s t Hok) as HE. fold sR tR in HE.
+  destruct (pair b64 b64_ops s t) as [[[fx fy] fz] inv].
+  rewrite !SF2R_B2SF. exact (proj2 HE).
+Qed.
+
+Print Assumptions sf_sqrt_bridge.
+Print Assumptions sf_pair_bridge.
+Print Assumptions b64_pair_g64.
+Print Assumptions b64_pair_error.
+Print Assumptions sf_pair_error.
